@@ -120,7 +120,9 @@ STREAM_RULE = (
     "one ~9 KiB pattern so that 8*max_pattern_len exceeds the default 64 KiB buffer) x random automaton configuration "
     "(all 7 ways of building a searcher) x pattern-derived stream x read-size schedule (single bytes, fill-the-buffer, "
     "pattern-length reads, mixed) x internal buffer capacity set through the hook to max_pattern_len + spare, spare in "
-    "{1,2,3,5,8,64}; plus a few cases with the crate's default capacity on streams of 200 KiB+ (un-hooked path). "
+    "{1,2,3,5,8,64}; plus a few cases with the crate's default capacity on streams of 200 KiB+ (un-hooked path) and, "
+    "on every run, one case per longest-pattern length in {8191, 8192, 8193, 16384, 32768, 65535, 65536, 65537, 100000, "
+    "131072} at the default capacity (the capacity formula is 8*len vs 64 KiB). "
     "Reader and writer are instrumented and log every call. "
 )
 
@@ -234,7 +236,8 @@ PROPS.update({
         "assumptions": COMMON_ASSUMPTIONS[1:] + ["the in-memory find_iter of the same searcher is the reference (its own correctness is C02)"],
         "stages": {"quick": NATIVE, "thorough": NATIVE},
         "floors": {"quick": {"evaluations": 50_000, "distinct_nontrivial": 30_000, "rolls_observed": 1_000_000,
-                             "cases_with_roll": 30_000, "cases_default_capacity": 16},
+                             "cases_with_roll": 30_000, "cases_default_capacity": 16,
+                             "boundary_pattern_length_cases": 10},
                    "thorough": {"evaluations": 2_000_000, "rolls_observed": 50_000_000}},
         "timeout": T_DEFAULT,
     },
@@ -249,7 +252,8 @@ PROPS.update({
         "assumptions": COMMON_ASSUMPTIONS[1:] + ["the in-memory find_iter of the same searcher is the reference (C02/C12)"],
         "stages": {"quick": NATIVE, "thorough": NATIVE},
         "floors": {"quick": {"evaluations": 100_000, "distinct_nontrivial": 30_000, "rolls_observed": 1_000_000,
-                             "cases_partial_writes": 10_000, "closure_calls_logged": 1_000_000},
+                             "cases_partial_writes": 10_000, "closure_calls_logged": 1_000_000,
+                             "boundary_pattern_length_cases": 10},
                    "thorough": {"evaluations": 4_000_000}},
         "timeout": T_DEFAULT,
     },
@@ -476,7 +480,8 @@ PROPS.update({
                 "(pattern lists aimed at Memmem/StartBytes1-3/RareBytes1-3/Packed), on haystacks of every length 0..300 "
                 "(plus up to 4000 for prefilters) with vector-shaped content, decoys, arbitrary and invalid-UTF-8 bytes, "
                 "x spans. Calls: find_in/find_iter (packed); try_find, earliest, find_iter, overlapping stepping, "
-                "is_match, replace_all_bytes, replace_all (automata). Observers: (1) 'guard': haystack placed flush "
+                "is_match, replace_all_bytes, replace_all (automata); plus all four replace routines on UTF-8 haystacks with byte "
+                "patterns that split code points (the C12 generator). Observers: (1) 'guard': haystack placed flush "
                 "against a PROT_NONE page on the right and on the left in a child process (a stray read = SIGSEGV, "
                 "reported with the case the child had announced); (2) 'miri': exact-size boxed haystacks under the Miri "
                 "interpreter built with +ssse3,+avx2 so that all Teddy variants run; (3) 'asan': exact-size heap "
@@ -504,7 +509,8 @@ PROPS.update({
                              "guard_right_prefilter_Memmem": 8000,
                              "miri_box_SlimSSSE3_m1": 10, "miri_box_SlimAVX2_m2": 10, "miri_box_FatAVX2_m3": 10,
                              "miri_box_SlimSSSE3_m4": 10, "miri_box_RabinKarp_m1": 10, "miri_box_prefilter_any": 20,
-                             "exact_box_SlimSSSE3_m2": 5000, "exact_box_FatAVX2_m3": 5000},
+                             "exact_box_SlimSSSE3_m2": 5000, "exact_box_FatAVX2_m3": 5000,
+                             "guard_replace_apis": 50_000, "exact_box_replace_apis": 10_000, "miri_box_replace_apis": 30},
                    "thorough": {"evaluations": 50_000_000}},
         "timeout": {"quick": 1500, "thorough": 8 * 3600},
     },
